@@ -141,7 +141,8 @@ def print_assumptions(prop: str, theorems: list[str]) -> tuple[bool, dict]:
         if line.startswith("Closed under the global context"):
             closed += 1
         m = re.match(r"^([A-Za-z_][\w.']*)\s*$", line) or re.match(r"^([A-Za-z_][\w.']*)\s+:", line)
-        if m and not line.startswith("Axioms") and not line.startswith("Closed"):
+        # (`Check` of a statement with implicit type arguments ends with a line "where" and "?R : [...]" lines)
+        if m and not line.startswith("Axioms") and not line.startswith("Closed") and line.strip() != "where":
             axioms.add(m.group(1))
     # `Check th.` prints "th : stmt" lines: drop theorem names themselves
     axioms = {a for a in axioms if a.split(".")[-1] not in theorems and a not in theorems}
